@@ -1,5 +1,5 @@
 From Coq Require Import QArith Qcanon.
-From Raptor Require Import Base.Sums Sparse.Defs Extract.Inst Dist.Comm Dist.ParMat Dist.ParConv Dist.Tap Dist.Net Extract.Inst_dist.
+From Raptor Require Import Base.Sums Sparse.Defs Extract.Inst Dist.Comm Dist.ParMat Dist.ParConv Dist.ParBlock Dist.Tap Dist.Net Extract.Inst_dist.
 Require Import ExtrOcamlBasic.
 Extraction Language OCaml.
 Extraction "model_dist.ml"
@@ -11,4 +11,5 @@ Extraction "model_dist.ml"
   phases_ok trace_ok dests_in_rangeb Barrier EvBarrier
   q_assemble_all q_par_mult q_par_mult_append q_par_residual q_par_mult_T rs_colmap
   q_par_transpose q_par_add_local q_par_csr_to_coo q_par_csr_to_csc q_par_csr_to_csr q_par_coo_to_csr q_par_coo_to_csc
-  q_par_coo_to_coo q_par_csc_to_csr q_par_csc_to_coo q_par_csc_to_csc.
+  q_par_coo_to_coo q_par_csc_to_csr q_par_csc_to_coo q_par_csc_to_csc
+  expand_world expand_ids.
